@@ -1,6 +1,7 @@
 From Coq Require Import Extraction ExtrOcamlBasic.
 From Common Require Import Bytes Drv.
-From C23 Require Import Model Spec.
+From C23 Require Import Model Spec Enum.
 Extraction "model.ml" drv_b2n drv_n2b drv_z_of_n drv_n_of_z drv_nat_of_n drv_n_of_nat
   wf is_anc number mkpc eff ginit go_step prefix fixed cfind n_change n_children go_setid_by_number go_next_change aget
-  sinit spec_step spec_setid_by_number spec_next_change sdesc.
+  sinit spec_step spec_setid_by_number spec_next_change sdesc
+  explore_all count_configs.
